@@ -93,6 +93,7 @@ type Case struct {
 	ExportPanicModule string `json:"export_panic_module,omitempty"`
 	ImportPanic  string     `json:"import_panic_unpatched,omitempty"`
 	ImportPanic2 string     `json:"import_panic_patched,omitempty"`
+	ImportPanicClass string `json:"import_panic_class,omitempty"`
 	Populated    [][]string `json:"populated"`
 	Diffs        []Diff     `json:"diffs"`
 	Export2      []string   `json:"second_export_differs_in"`
@@ -241,6 +242,11 @@ func runCase(idx int, seed uint64, f Features) Case {
 	c2, p2 := newChainFromExport(c, patched)
 	cs.ImportPanic2 = p2
 	if p2 != "" {
+		cs.ImportPanicClass = "other"
+		if strings.Contains(p2, "is already registered by") {
+			cs.ImportPanicClass = "identity-unique-key"
+		}
+		_, cs.Populated = diffStores(c.DumpStores(c.QueryCtx()), map[string][]abci.KV{})
 		return cs
 	}
 	// c2 is not committed (as after a real InitChain): its deliver state holds the imported genesis
